@@ -57,6 +57,7 @@ type Ctx struct {
 	UFs   map[string]string // name -> declaration
 	ufOrd []string
 	fresh int
+	pieceCache map[int][]piece
 }
 
 func NewCtx() *Ctx {
@@ -454,6 +455,12 @@ func (c *Ctx) BVBin(op string, a, b *Term) *Term {
 		}
 	}
 	switch op {
+	case "bvor", "bvadd", "bvxor":
+		if r := c.tryOrDisjoint(op, a, b); r != nil {
+			return r
+		}
+	}
+	switch op {
 	case "bvadd", "bvmul", "bvand", "bvor", "bvxor":
 		if a.ID > b.ID {
 			a, b = b, a
@@ -647,6 +654,12 @@ func (c *Ctx) Extract(hi, lo int, a *Term) *Term {
 		r := c.Extract(hi, lo, a.Args[1])
 		if l.IsConst || r.IsConst || l.size+r.size < a.size {
 			return c.BVBin(a.Op, l, r)
+		}
+	}
+	if a.Sort.W <= 64 && (a.Op == "concat" || a.Op == "zext") {
+		ps := slicePieces(c.pieces(a), hi, lo)
+		if len(ps) <= maxPieces {
+			return c.fromPieces(ps)
 		}
 	}
 	return c.mk("extract", BVSort(w), hi, lo, a)
@@ -854,3 +867,31 @@ func (c *Ctx) Eval(t *Term, env map[int]uint64, memo map[int]uint64) (uint64, bo
 }
 
 var _ = bits.Len
+
+// tryOrDisjoint merges a op b (op in or/add/xor) when the operands occupy disjoint bit positions.
+func (c *Ctx) tryOrDisjoint(op string, a, b *Term) *Term {
+	if a.Sort.W > 64 {
+		return nil
+	}
+	pa, pb := c.pieces(a), c.pieces(b)
+	if len(pa) == 1 && pa[0].src == a && len(pb) == 1 && pb[0].src == b {
+		return nil
+	}
+	xa, xb := alignPieces(pa, pb)
+	for i := range xa {
+		x, y := xa[i], xb[i]
+		zeroX := x.src == nil && x.c == 0
+		zeroY := y.src == nil && y.c == 0
+		if !zeroX && !zeroY {
+			if op == "bvor" && x.src == nil && y.src == nil {
+				continue
+			}
+			return nil
+		}
+	}
+	m, ok := orPieces(xa, xb)
+	if !ok {
+		return nil
+	}
+	return c.fromPieces(m)
+}
